@@ -101,6 +101,9 @@ var alsoRuns = map[string][]borrow{
 	"C15": {{prop: "C12", rules: []string{"T4"}}, {prop: "C03", keyHasAny: []string{"ircPrefix", "IrcPrefix"}}},
 	// sessions (and the expiration they are measured against) survive a snapshot: every session is restored (C03.K7), ids keep
 	// both components (K1c), the configured expiration round-trips
+	// "decoded identically by all readers (… restore …)": the snapshot container written by Persist is the one decodeProtobuf
+	// reads (C02.N5)
+	"C18": {{prop: "C02", rules: []string{"N5"}}},
 	"C17": {{prop: "C03", rules: []string{"K7"}}, {prop: "C03", keyHasAny: []string{"SessionExpiration", "LastActivity", "identifier literal"}}},
 }
 
